@@ -210,7 +210,8 @@ func genWalkTree(r *rand.Rand, depth int) *walkNode {
 		}
 		return nd
 	case k == 6:
-		return &walkNode{kind: "str", s: []string{"", "a", "xy", "q r"}[r.Intn(4)]}
+		// (also multi-byte characters and U+FFFD, which a decoder also produces for an unpaired surrogate escape)
+		return &walkNode{kind: "str", s: []string{"", "a", "xy", "q r", "h\u00e9", "\ufffdz", "a\ufffd", "\u65e5\u672c", "x\U0001F600y"}[r.Intn(9)]}
 	case k == 7:
 		return &walkNode{kind: "bool", b: r.Intn(2) == 0}
 	case k == 8:
@@ -285,8 +286,8 @@ func matchWalk(w *walkNode, d int, lines []string) ([]string, string) {
 		}
 		return lines, ""
 	case "str":
-		for i := 0; i < len(w.s); i++ {
-			want := fmt.Sprintf("c %d %s %d", d, string(w.s[i]), i)
+		for i, ch := range w.s { // characters with their byte offsets
+			want := fmt.Sprintf("c %d %s %d", d, string(ch), i)
 			if len(lines) == 0 || lines[0] != want {
 				return nil, fmt.Sprintf("expected %q, got %q", want, firstLineOr(lines))
 			}
